@@ -446,7 +446,10 @@ def site_of(bt, flavour):
     # -i lists inlined callers too (builds with debug info), innermost first: the first draco:: function is the site
     for line in out.split("\n")[::2]:
         if line.startswith("draco::"):
-            name = _strip_templates(line.split("(")[0]).replace(" ", "")
+            head = _strip_templates(line.split("(")[0])
+            if " " in head.strip() or "std::" in head:
+                continue        # a std:: member whose return type is a draco type
+            name = head.replace(" ", "")
             if name.startswith(SITE_SKIP):
                 continue        # generic containers: the caller is the site
             return name
@@ -663,6 +666,10 @@ KD_QUADRATIC = ("445241434f02030001000002000000011400" + "04ff000000" * 19 + "04
                 "000d000000020000000101000c000000c36c0b34310a1bc00000bc8504000000000000000400000000000000")
 
 
+LEGACY_KD_INNER_COUNT = ("445241434f020200010000640000000101000604000001026400000000000000fcffff7f"
+                         "010100040000000000000004000000000000000400000000000000")
+
+
 def regression_cases(flavour, oracles, kd=True):
     """streams of earlier findings, run first: (1) testdata/cube_att.obj.edgebreaker.cl10.2.2.drc with num_orientations
     (int32 at offset 172) = 2^31-1: before fix 008c24a the portable tex-coord decoder requested 256 MiB for it;
@@ -680,6 +687,9 @@ def regression_cases(flavour, oracles, kd=True):
     if os.path.exists(p):
         out.append(make_case(bytes.fromhex(open(p).read().strip()), "01234", flavour, oracles,
                              ("regression", "tamper:traversal_symbol")))
+    # (4) legacy (2.2) integer kd-tree stream whose payload declares 2^31-4 points for a 100-point cloud: before fix
+    # c9df685 it was accepted after 2^31 loop iterations per decode call (watchdog); it must be rejected promptly
+    out.append(make_case(bytes.fromhex(LEGACY_KD_INNER_COUNT), "01234", flavour, oracles, ("regression", "legacy_kd_inner_count")))
     if kd:
         out.append(make_case(bytes.fromhex(KD_QUADRATIC), "01234", flavour, oracles, ("regression", "kd_quadratic_stacks")))
     return out
